@@ -13,7 +13,8 @@ PROP = dict(
 )
 
 NAMES = {1: "c09:foreign-message-changed-state", 2: "c09:request-reuses-known-id",
-         3: "c09:rejected-event-context-applied", 4: "c09:handler-panic"}
+         3: "c09:rejected-event-context-applied", 4: "c09:handler-panic",
+         5: "c09:third-party-message-changes-what-the-counterparty's-message-does"}
 
 
 def classify(c):
